@@ -2,6 +2,7 @@ package server
 
 import (
 	"context"
+	"math"
 	"strconv"
 	"strings"
 	"time"
@@ -144,11 +145,27 @@ func (s *Server) setSettings(settings serverSettings) {
 		s.loader.SetLimits(settings.Limits)
 	}
 	if oldSettings.Limits != settings.Limits {
-		// include trees resolved under the old limits no longer apply
+		// include trees resolved under the old limits no longer apply: those of
+		// the documents, that of the workspace, and what was collected from them
 		s.resolved.Range(func(key, _ any) bool {
 			s.resolved.Delete(key)
 			return true
 		})
+		s.docGen.Add(1)
+		s.dropPayeeTemplates()
+		if s.workspace != nil {
+			_ = s.workspace.Initialize()
+			s.documents.Range(func(key, value any) bool {
+				if docURI, ok := key.(protocol.DocumentURI); ok {
+					if text, ok := value.(string); ok {
+						if path := uriToPath(docURI); path != "" {
+							s.workspace.UpdateFile(path, text)
+						}
+					}
+				}
+				return true
+			})
+		}
 	}
 	if oldSettings.CLI.Path != settings.CLI.Path || oldSettings.CLI.Timeout != settings.CLI.Timeout {
 		s.reinitCLI(settings.CLI)
@@ -190,7 +207,9 @@ func parseSettingsFromRaw(base serverSettings, raw interface{}) serverSettings {
 	if !ok {
 		return normalizeServerSettings(settings)
 	}
-	if nested, ok := rawMap["hledger"]; ok {
+	// the settings may come wrapped in their section; an entry "hledger" that
+	// is not an object is just an ill-typed entry beside the others
+	if nested, ok := rawMap["hledger"].(map[string]interface{}); ok {
 		return parseSettingsFromRaw(settings, nested)
 	}
 	settings = applySettingsMap(settings, rawMap)
@@ -384,9 +403,9 @@ func toInt(value interface{}) (int, bool) {
 	case int64:
 		return int(v), true
 	case float64:
-		return int(v), true
+		return int(floatToInt64(v)), true
 	case float32:
-		return int(v), true
+		return int(floatToInt64(float64(v))), true
 	case string:
 		v = strings.TrimSpace(v)
 		if v == "" {
@@ -410,9 +429,9 @@ func toInt64(value interface{}) (int64, bool) {
 	case int64:
 		return v, true
 	case float64:
-		return int64(v), true
+		return floatToInt64(v), true
 	case float32:
-		return int64(v), true
+		return floatToInt64(float64(v)), true
 	case string:
 		v = strings.TrimSpace(v)
 		if v == "" {
@@ -425,6 +444,23 @@ func toInt64(value interface{}) (int64, bool) {
 		return parsed, true
 	}
 	return 0, false
+}
+
+// floatToInt64 converts a JSON number. A number beyond the integer range is a
+// very large (or very small) setting, not an arbitrary one: the conversion of
+// such a float is platform dependent and on amd64 turns 1e19 negative, which
+// would then be taken for a non-positive value and replaced by the default.
+func floatToInt64(f float64) int64 {
+	const limit = 1 << 53 // every integer up to here is exact in a float64
+	switch {
+	case math.IsNaN(f):
+		return 0
+	case f >= limit:
+		return limit
+	case f <= -limit:
+		return -limit
+	}
+	return int64(f)
 }
 
 func toBool(value interface{}) (bool, bool) {
